@@ -258,15 +258,23 @@ func (sw *SnapshotWriter) saveHeader() error {
 	}
 	sh.HeaderChecksum = headerHash.Sum(nil)
 	data = pb.MustMarshal(&sh)
-	if uint64(len(data)) > HeaderSize-8 {
+	if uint64(len(data)) > HeaderSize-8-4 {
 		panic("snapshot header is too large")
 	}
+	// the crc32 of the marshaled header follows it, this is what the reader and
+	// the snapshot validator check
+	h := newCRC32Hash()
+	fileutil.MustWrite(h, data)
+	crc := h.Sum(nil)
 	lenbuf := make([]byte, 8)
 	binary.LittleEndian.PutUint64(lenbuf, uint64(len(data)))
 	if _, err := sw.file.WriteAt(lenbuf, 0); err != nil {
 		return err
 	}
 	if _, err := sw.file.WriteAt(data, 8); err != nil {
+		return err
+	}
+	if _, err := sw.file.WriteAt(crc, int64(8+len(data))); err != nil {
 		return err
 	}
 	return nil
